@@ -111,7 +111,7 @@ C20_PREDS = ["C20_AcceptMonotone", "C20_StaleIgnored", "C20_SwitchOnValid", "C20
 def c20(tier, seed):
     w = n(tier, 250, 4000)
     runs = [dict(cfg="p21", traces=w, drain=True, notime=True, zerowait=True, preds=C20_PREDS,
-                 scheds=["fc20a_deferred_ignores_value", "fc20b_responses_reversed", "fc20b_stale_request_answered", "fc20c_plain_after_valued_tlc"]),
+                 scheds=["fc20a_deferred_ignores_value", "fc20b_responses_reversed", "fc20b_stale_request_answered", "fc20c_plain_after_valued_tlc", "c20_plain_uc_on_deferred_value"]),
             dict(cfg="p21big", traces=n(tier, 100, 1000), drain=True, notime=True, zerowait=True, preds=C20_PREDS),
             dict(cfg="p21", traces=n(tier, 100, 1000), preds=C20_PREDS),
             dict(cfg="p21step", traces=n(tier, 100, 1000), drain=True, notime=True, zerowait=True, preds=C20_PREDS),
